@@ -18,6 +18,7 @@ func main() {
 		tier := fs.String("tier", "", "quick|thorough")
 		only := fs.String("only", "", "restrict to contracts whose key contains this")
 		verbose := fs.Bool("v", false, "verbose")
+		noEv := fs.Bool("no-evidence", false, "do not rewrite the evidence file (experiments on a modified tree)")
 		fs.Parse(os.Args[2:])
 		if *tier == "" {
 			*tier = os.Getenv("VERIF_TIER")
@@ -25,7 +26,7 @@ func main() {
 		if *tier == "" {
 			*tier = "quick"
 		}
-		os.Exit(runCheck(*id, *tier, *only, *verbose))
+		os.Exit(runCheckOpts(&CheckOpts{ID: *id, Tier: *tier, Only: *only, Verbose: *verbose, Out: os.Stdout, NoEvidence: *noEv}))
 	case "selftest":
 		fs := flag.NewFlagSet("selftest", flag.ExitOnError)
 		id := fs.String("property", "", "property id (default all)")
